@@ -67,3 +67,14 @@ pub fn open_upvalues(rt: &RuntimeData) -> usize {
     }
     n
 }
+
+/// `(size, align)` of the heap object header, of `Value`, and of one hash-map slot triple
+pub fn layouts() -> [(usize, usize); 2] {
+    [
+        (
+            std::mem::size_of::<CaoLangObject>(),
+            std::mem::align_of::<CaoLangObject>(),
+        ),
+        (std::mem::size_of::<Value>(), std::mem::align_of::<Value>()),
+    ]
+}
